@@ -211,6 +211,11 @@ def run(ctx: RuleContext, p: Program) -> None:
     ctx.try_rule(opsem.rule_op_sem, p, 'OP-SEM')
     # the meta value constructor path (MetaItem.from_value, meta[key] = v): every plain value, instances of subclasses included, is wrapped
     ctx.try_rule(round4.rule_meta_sem, p, 'META-SEM')
+    # Custom.from_value converts its values with the same helper as assignments through Custom.values
+    ctx.try_rule(round4.rule_custom_sem, p, 'CUSTOM-SEM')
+    from . import presence as _presence
+    # the parse-side hooks decide by presence, not by truthiness: an empty narration is a narration
+    ctx.try_rule(_presence.rule_presence_truth, p, 'PRESENCE-TRUTH')
     ctx.not_decided += ['that the printed text of a constructed model parses (runtime / lexer)',
                         'that the parsed result has equal fields and values (runtime)']
     ctx.assumptions += ['detach()/reattach() semantics as decided under C05', 'separator tokens are deep-copied (SEP-PROV under C03/C11)']
